@@ -92,9 +92,10 @@ def exceptions : List (String × Contract) := [
   ("viewshed.viewshed", { shape := .identity "raster" [], mayRebind := ["raster"] }),
   -- hotspots documents the extra `unit` attribute
   ("focal.hotspots", { shape := .identity "raster" ["unit"] }),
-  -- generators, focal_stats, true_color define their own shape / coords
+  -- generators, focal_stats, true_color, polygonize define their own shape / coords
   ("perlin.perlin", own), ("terrain.generate_terrain", own), ("bump.bump", own),
   ("focal.focal_stats", own), ("multispectral.true_color", own), ("analytics.summarize_terrain", own),
+  ("polygonize.polygonize", own),
   -- local.* build a fresh 2-D raster from a Dataset of layers
   ("local.cell_stats", own), ("local.combine", own), ("local.lesser_frequency", own),
   ("local.equal_frequency", own), ("local.greater_frequency", own), ("local.lowest_position", own),
